@@ -21,11 +21,16 @@ RULE = ('histories of up to 14 ops (cd to act/tmp/new sub dirs, env set with ${.
         'and the same variable, env value taken from a program run in the addressed environment, env unset, '
         '-of act / -of !act in [setup], timeout changes, def, child-process cd) with probes after random ops, '
         'distributed over setup/before-assert/assert/cleanup in order; act = probe. Non-trivial = a change followed '
-        'by a probe in a later phase (or the act probe after a setup change); distinct = distinct history')
+        'by a probe in a later phase (or the act probe after a setup change); distinct = distinct history. '
+        'Sub-check timeout_persists: enumerated cells (place of a process in a later instruction / phase x other '
+        'settings - env without/with -of, cd, stdin - made between the `timeout = 1` and the use): a child that '
+        'sleeps 40 s must be stopped, a `timeout = none` given later lifts the limit')
 ASSUMPTIONS = [
     'probes are `$ env -0 > FILE; pwd > FILE` (variables the shell sets itself - PWD, OLDPWD, SHLVL, _ - are '
     'ignored) and, for a sample, the python probe program',
-    'timeout persistence is observed by C19; here timeout changes must merely not disturb the other settings',
+    'in the generated histories timeout changes must merely not disturb the other settings; that a timeout set '
+    'earlier is in force for later instructions and phases is checked by the enumerated sub-check '
+    'timeout_persists, which reuses the cell builder and the wall-clock margins of C19 (props/c19_timeouts.py)',
 ]
 
 IPHASES = ['setup', 'before-assert', 'assert', 'cleanup']
@@ -309,7 +314,30 @@ def histories(draw, max_ops=14):
     return {'ops': ops, 'py_act': draw(st.integers(0, 7)) == 0}
 
 
+# ---- the timeout takes effect for every later instruction and phase (cells and oracle shared with C19) ----------------
+_TIMEOUT_PLACES = ('instr-sys', 'instr-run-sym', 'file-stdout-from', 'act-sys', 'act-sym', 'act-shell')
+
+
+def timeout_cells(tier):
+    from props import c19_timeouts as t
+    cells = [c for c in t.all_cells()
+             if c.get('ctx') and c['place'] in _TIMEOUT_PLACES]
+    if tier != 'quick':
+        return cells
+    seed = int(os.environ.get('VERIF_SEED', '1') or '1')
+    return [c for i, c in enumerate(cells)
+            if (i * 2654435761 + seed * 40503) % 8 == 0 or (c['phase'] == 'act' and c['history'] == 'h1_same_phase'
+                                                             and c['place'] == 'act-sym')]
+
+
+def check_timeout(cell) -> Verdict:
+    from props import c19_timeouts as t
+    return t.check(cell)
+
+
 SUBS = [
     Sub('histories', check, strategy=lambda tier: histories(14 if tier == 'quick' else 20),
         budget={'quick': 2500, 'thorough': 100000}),
+    Sub('timeout_persists', check_timeout, enumerate=timeout_cells, exhaustive=False,
+        shards={'quick': 16, 'thorough': 16}),
 ]
